@@ -42,7 +42,7 @@ def strategy(draw, tier="quick"):
     for i in range(nr):
         methods[f"read{i}"] = [4, 64]
     for j in range(nw):
-        methods[f"write{j}"] = [64, 1 << width, 1 << g]
+        methods[f"write{j}"] = [64, 1 << width, 1 << g, 4]  # last: mode (see run_case)
     hi = 60 if tier == "quick" else 200
     hist = draw(history(methods, 5, hi))
     return {"nr": nr, "nw": nw, "depth": depth, "width": width, "gran": gran, "elem": elem, "history": hist}
@@ -67,6 +67,7 @@ def run_case(case) -> Result:
         ios = h.ios(["read", "write"])
         mem = [0] * depth
         last_changed = []  # rows whose contents changed at the previous edge
+        last_write = {}  # write port -> (addr, data, mask) of its previous write
         for cyc, rec in enumerate(case["history"]):
             reqs = {}
             writes = {}
@@ -75,14 +76,23 @@ def run_case(case) -> Result:
                 a = rec.get(f"write{j}")
                 if a is None:
                     continue
-                sel, data, mask = a
+                sel, data, mask = a[:3]
+                mode = a[3] if len(a) > 3 else 0
                 addr = sel % depth
+                others = [v for k, v in last_write.items() if k != j]
+                if mode == 1 and j in last_write:
+                    addr, data, mask = last_write[j]  # the same port stores the very same word in the same row again
+                elif mode == 2 and others:
+                    addr = others[sel % len(others)][0]  # a row another port wrote last
+                elif mode == 3 and j in last_write:
+                    addr = last_write[j][0]  # the same row again, other data
                 while addr in taken:
                     addr = (addr + 1) % depth
                 taken.append(addr)
                 if gran is None:
                     mask = 1
                 writes[j] = (addr, data, mask)
+                last_write[j] = (addr, data, mask)
                 args = {"addr": addr, "data": to_data(data, width, elem)}
                 if gran is not None:
                     args["mask"] = mask
